@@ -419,3 +419,8 @@ SUBS = [
     Sub("ape_result", sub_ape_result, st_ape, 800, 30000, nontrivial=lambda c: c["ref"]["n"] >= 2),
     Sub("rpe_result", sub_rpe_result, st_rpe, 1400, 40000, nontrivial=lambda c: c["ref"]["n"] >= 3, shards_quick=8),
 ]
+
+
+# ---- the result evo_ape saves when plots are requested as well (plotting runs before saving) -------------------
+from vf.checks import c01 as _c01
+SUBS.append(Sub("cli_plot", _c01.sub_cli, _c01.st_cli(force_plot=True), 250, 8000, nontrivial=lambda c: True, shards_quick=4))
